@@ -270,6 +270,9 @@ FAMILIES = {
 
 # fixed-size edge inputs (constant expressions at the limits, sizes near 2^64, ...)
 EDGES = [
+    # initialisers and compound literals of types that are not object types
+    "int *x = &(int(int)){2};", "void f(void){(void){0};}", "void f(void){sizeof((int(void)){0});}", "typedef void F(void);F g={0};", "void f(void){(struct u){0};}",
+    "typedef int A[];void f(void){(A){};}", "void f(int n){(int[n]){0};}", "void v={};",
     # struct/union bodies that declare no named member
     "struct pad{int:3;};struct pad p={0};", "struct chk{_Static_assert(1,\"\");};struct outer{struct chk c;int x;};", "union u{int:0;};void f(void){union u v={1};}",
     "struct e{int:0;int:5;}x;int y=sizeof x;", "struct s{_Static_assert(1,\"\");int:1;};void f(void){struct s a={},b;b=a;}", "struct t{struct{int:2;};};struct t v={{0}};",
